@@ -75,17 +75,33 @@ set_option linter.unusedVariables false in
 /-- **ReduceMax / ReduceMin** (partial): exactly the requested axes (positive or negative spelling, any
 order, pairwise distinct) are reduced, each kept with extent 1 iff keepdims; `better a b` says "a
 replaces b", `pick` is the corresponding binary max/min. The guard excludes "no axes with keepdims".
-Extra hypothesis w.r.t. the original statement: `hantisymm` (`le` is a linear order, so that tied
-maxima are equal and the enumeration order does not matter). -/
+Extra hypotheses w.r.t. the original statement: `hantisymm` (`le` is a linear order, so that tied
+maxima are equal and the enumeration order does not matter) and `hinner` (the model's guard for
+gorgonia's defective inner-axis reduction does not fire: `innerAxesOnly rank nax` — rank ≥ 4, every
+listed axis ≥ 2 and at least one of them not the last axis, i.e. the smallest listed axis is an inner
+one — is false; see `reduce_rank4_inner_unmodelled`).
+`hinner` is phrased over the normalised listed axes `nax`: when no axes are given (`nax = []`) it holds
+vacuously, and rightly so, since the model then reduces all axes `0, 1, …` starting with axis 0, for
+which the guard is false. -/
 theorem reduce_partial' (le : α → α → Bool) (hle : TotalLe le)
     (hantisymm : ∀ a b, le a b = true → le b a = true → a = b)
     (t : Tensor α) (axes : List Int) (keep : Bool)
     (hW : t.WF) (hpos : Pos t.shape)
     (nax : List Nat) (hax : axes.mapM (Spec.normAxis t.shape.length) = some nax) (hnd : nax.Nodup)
     (hguard : ¬ (axes = [] ∧ keep = true ∧ prod t.shape ≠ 1))
+    (hinner : innerAxesOnly t.shape.length nax = false)
     (s : Tensor α) (hs : Spec.reduce (fun a b => if le a b then b else a) t axes keep = some s) :
     ∃ m, reduceOp (fun a b => !le a b) t axes keep = .ok m ∧ Equiv m s :=
-  Proofs.Reduce.reduce_partial' le hle hantisymm t axes keep nax hax hnd hguard s hs
+  Proofs.Reduce.reduce_partial' le hle hantisymm t axes keep nax hax hnd hguard hinner s hs
+
+/-- The guard of the model, documented: reducing an inner axis (neither one of the first two nor the
+last) of a tensor of rank ≥ 4 FIRST is not modelled; instance rank 4, `axes = [2]`, any `keepdims`.
+This is the known finding `reduce.rank4_inner_axis_first` of the real code: gorgonia's Max/Min on an
+inner axis of a rank-4 tensor returns values of another lane or panics, so no claim about the result
+is made for such inputs (they are excluded from `reduce_partial'` by `hinner`). -/
+theorem reduce_rank4_inner_unmodelled (better : α → α → Bool) (t : Tensor α) (keep : Bool)
+    (h : t.shape.length = 4) : reduceOp better t [2] keep = .error .unmodelled :=
+  Proofs.Reduce.reduce_rank4_inner_unmodelled better t keep h
 
 /-- "all axes when none are given" with keepdims is an error unless the input has one element (known finding) -/
 theorem reduce_no_axes_keepdims (better : α → α → Bool) (t : Tensor α) (h : prod t.shape ≠ 1) :
